@@ -143,6 +143,13 @@ func (x *Exec) valueInstr(st *State, b *ssa.BasicBlock, i int, ins ssa.Value, k 
 		okT := x.D.app("is_"+typeShort(ins.AssertedType), []string{ut}, []string{"U"}, "Bool")
 		res := v
 		res.GoT = ins.AssertedType
+		if pt, ok := ins.AssertedType.Underlying().(*types.Pointer); ok {
+			if _, isSt := pt.Elem().Underlying().(*types.Struct); isSt && v.K == KU {
+				// the concrete object behind an interface value: a tracked object named after the interface value
+				res = SVal{K: KLoc, Loc: provName(v) + "^", GoT: ins.AssertedType, Src: provName(v) + "^"}
+				st.NamedV["asserted("+provName(v)+")"] = res
+			}
+		}
 		if sortOf(ins.AssertedType) != "U" || isStructT(ins.AssertedType) {
 			res = x.unbox(st, x.D.app("as_"+typeShort(ins.AssertedType), []string{ut}, []string{"U"}, sortOf(ins.AssertedType)), ins.AssertedType)
 		}
